@@ -23,7 +23,7 @@ PATHS = ("law", "block", "block_valid", "stream", "read_dedisp", "dmt", "dmt_val
 
 
 def REQUIRED(tier):
-    return [f"path:{p}" for p in PATHS] + ["regime:negative_delays", "regime:foff>0", "regime:dm<0", "law_checks", "elements_compared", "regime:multi_file_input"]
+    return [f"path:{p}" for p in PATHS] + ["regime:negative_delays", "regime:foff>0", "regime:dm<0", "law_checks", "elements_compared", "regime:multi_file_input", "path:block_second_reference"]
 
 
 def cases(tier, seed):
@@ -186,6 +186,18 @@ def _paths(case, j, ctx):
     except Exception as exc:  # noqa: BLE001
         _viol(ctx, f"block-dedisperse-raised:{type(exc).__name__}@{exc_site(exc)}", regime, fmt_exc(exc), one)
 
+    # ---- the same block object again at the same DM with another reference frequency (no per-object delay memo may leak)
+    ref2 = "min" if ref != "min" else "max"
+    d2 = delays_for(dm, ref2)
+    if np.max(np.abs(d2)) < n:
+        ctx.evaluated(); ctx.count("path:block_second_reference")
+        try:
+            out2 = blk.dedisperse(dm, ref_freq=ref2)
+            want2 = np.stack([xf[c, (ar + d2[c]) % n] for c in range(nch)])
+            if not np.array_equal(out2.data, want2):
+                _viol(ctx, "block-dedisperse:second-reference-on-same-block", regime, f"dedisperse(dm, ref_freq={ref2!r}) after dedisperse(dm, ref_freq={ref!r}) on the same block != x[c,(t+d_c) mod n]", one)
+        except Exception as exc:  # noqa: BLE001
+            _viol(ctx, f"block-dedisperse-raised:{type(exc).__name__}@{exc_site(exc)}", regime, fmt_exc(exc), one)
     # ---- valid-samples variant
     ctx.evaluated(); ctx.count("path:block_valid")
     lo, hi = max(0, -int(d.min())), n - max(0, int(d.max()))
@@ -265,7 +277,7 @@ def _paths(case, j, ctx):
                 _viol(ctx, f"read_dedisp_block-raised:{type(exc).__name__}@{exc_site(exc)}", regime1, fmt_exc(exc), one)
 
     # ---- DM-time transform
-    steps = int(rng.choice([1, 2, 5, 9]))
+    steps = int(rng.choice([1, 2, 5, 9, 65, 257], p=[0.15, 0.2, 0.2, 0.2, 0.15, 0.1]))   # fine grids: neighbouring trials differ in a few channels only
     for valid in (False, True):
         path = "dmt_valid" if valid else "dmt"
         ctx.evaluated(); ctx.count(f"path:{path}")
